@@ -347,9 +347,18 @@ Fixpoint ovl_eqb (a b : list (option value)) : bool :=
                 args, kwargs = gen_call(rng, sig, pool)
                 calls.append(dict(m=rng.randrange(len(ms)), args=args, kwargs=kwargs))
             out.append(dict(methods=ms, calls=calls))
+        # two implementations of one method name whose versions differ only in characters that are not letters, digits,
+        # `_`, `.` or `-`
+        for c, (va, vb) in zip(out[:6], [('2024_05', '2024 05'), ('v1+fix', 'v1_fix'), ('a:b', 'a  b'), ('1/2', '1_2'), ('é', 'e'), (' ', '')]):
+            first = c['methods'][0]
+            ms = [dict(first, name='load', version=va), dict(first, name='load', version=vb)]
+            calls = [dict(call, m=i % 2) for i, call in enumerate(c['calls'] + c['calls'])]
+            out.append(dict(methods=ms, calls=calls))
         # one decorator object (a project-wide `project_cached = cached(version=..., ignore_kwargs=...)`) applied to several
         # methods of the class: the same version and ignore list, different names
         for c in out[:8]:
+            if c.get('shared_decorator') or c['methods'][0]['name'] == 'load':
+                continue
             first = c['methods'][0]
             ms = [dict(first, name=f'load_{i}') for i in range(len(c['methods']))]
             out.append(dict(methods=ms, calls=c['calls'] + c['calls'][:2], shared_decorator=True))
